@@ -32,6 +32,7 @@ from ..lib import Corr
 
 lib.use_repo()
 
+import aiofiles.os  # noqa: E402
 import aiofiles.threadpool  # noqa: E402
 
 from aiomysensors.exceptions import PersistenceReadError  # noqa: E402
@@ -218,12 +219,33 @@ class LoggedBin(_LoggedMixin, io.BufferedIOBase):  # dispatches to aiofiles' bin
         return self._f.raw
 
 
+class SnapLog(list):
+    """The event log; every append also records what the live file really holds at that moment, so that
+    a change made through a path the loggers do not see (another module's binding of os.replace, a
+    subprocess, ...) shows up as a difference from the simulated file system."""
+
+    def __init__(self, rec) -> None:
+        super().__init__()
+        self.rec = rec
+
+    def append(self, e) -> None:
+        rec = self.rec
+        rec.pre.append((rec.handles, rec._snapshot(rec.live)))
+        if e[0] == "open":
+            rec.handles += 1
+        elif e[0] == "close":
+            rec.handles -= 1
+        super().append(e)
+
+
 class Recorder:
     """Logs the file operations performed while `patched()` is active."""
 
     def __init__(self, live: str) -> None:
         self.live = os.path.realpath(live)
-        self.log: list[tuple] = []
+        self.log: list[tuple] = SnapLog(self)
+        self.pre: list[tuple[int, bytes | None]] = []   # (open handles, real content of the live file) before each logged event
+        self.handles = 0
         self.roles: dict[str, str] = {self.live: "live"}
         self._n = 0
         self._real = {"open": builtins.open, "replace": os.replace, "rename": os.rename, "remove": os.remove,
@@ -240,10 +262,16 @@ class Recorder:
         return self.roles[p]
 
     def _open(self, file, mode="r", *args, **kwargs):
-        f = self._real["open"](file, mode, *args, **kwargs)
         self._n += 1
         role = self.role(file)
-        self.log.append(("open", self._n, role, mode))
+        self.log.append(("open", self._n, role, mode))      # logged (and the live file snapshotted) before it takes effect
+        try:
+            f = self._real["open"](file, mode, *args, **kwargs)
+        except BaseException:
+            self.log.pop()
+            self.pre.pop()
+            self.handles -= 1
+            raise
         proxy = LoggedBin() if "b" in mode else LoggedText()
         proxy._setup(f, self.log, role, self._n)
         return proxy
@@ -277,13 +305,24 @@ class Recorder:
                                     remove=self._remove("remove"), unlink=self._remove("unlink"), truncate=self._truncate)
         opener = mock.patch("aiofiles.threadpool.sync_open", self._open)
 
+        def lifted(fn):
+            async def call(*a, **k):
+                return fn(*a, **k)
+            return call
+
+        # aiofiles.os binds the os functions when it is imported: wrap its coroutines as well
+        aio = mock.patch.multiple(aiofiles.os, replace=lifted(self._rename("replace")), rename=lifted(self._rename("rename")),
+                                  remove=lifted(self._remove("remove")), unlink=lifted(self._remove("unlink")))
+
         class Both:
             def __enter__(s):
                 stack.__enter__()
+                aio.__enter__()
                 opener.__enter__()
 
             def __exit__(s, *exc):
                 opener.__exit__(*exc)
+                aio.__exit__(*exc)
                 stack.__exit__(*exc)
 
         return Both()
@@ -421,7 +460,35 @@ async def real_load(path: str):
     return ("ok", canon(nodes))
 
 
-async def run_pair(corr: Corr, ctx, rng, label: str, old_spec, new_spec, must: list[int], model_lines: list):
+def layout_text(spec: list[dict], layout: str) -> str:
+    """The old file as another writer would have left it: every layout is one `load` accepts."""
+    schema = NodeSchema()
+    data = {str(k): schema.dump(v) for k, v in build_nodes(spec).items()}
+    if layout in ("legacy", "legacy-compact", "mixed"):
+        for j, node in enumerate(data.values()):
+            if layout == "mixed" and j % 2:
+                continue
+            node["sensor_id"] = node.pop("node_id")
+            node["type"] = node.pop("node_type")
+            if node.get("sketch_name") == "":
+                node["sketch_name"] = None
+            if node.get("sketch_version") == "":
+                node["sketch_version"] = None
+            for child in node.get("children", {}).values():
+                child["id"] = child.pop("child_id")
+                child["type"] = child.pop("child_type")
+    if layout in ("compact", "legacy-compact"):
+        return json.dumps(data)
+    if layout == "ascii-escaped":
+        return json.dumps(data, sort_keys=True, indent=4, ensure_ascii=True)
+    return json.dumps(data, sort_keys=True, indent=2)
+
+
+async def run_pair(corr: Corr, ctx, rng, label: str, old_spec, new_spec, must: list[int], model_lines: list,
+                   session: dict | None = None):
+    """`session`: the save under test is made by a Persistence object that first loaded the old file
+    (written in `session["layout"]`), as a gateway does at start; `session["warm"]` saves once more
+    before the instrumented save."""
     d = lib.scratch()
     live = os.path.join(d, f"c15-{corr.evaluations}-{len(model_lines)}.json")
     for leftover in (live,):
@@ -440,10 +507,34 @@ async def run_pair(corr: Corr, ctx, rng, label: str, old_spec, new_spec, must: l
         with open(live, "rb") as f:
             old_bytes = f.read()
     new_nodes = build_nodes(new_spec)
+    persistence = Persistence(new_nodes, live)
+    if session is not None:
+        case["session"] = session
+        with open(live, "w", encoding="utf-8") as f:
+            f.write(layout_text(old_spec, session["layout"]))
+        with open(live, "rb") as f:
+            old_bytes = f.read()
+        registry: dict[int, Node] = {}
+        persistence = Persistence(registry, live)
+        try:
+            await asyncio.wait_for(persistence.load(), TIMEOUT)
+        except BaseException as e:  # noqa: BLE001
+            corr.disagree("harness: the old file in this layout does not load", {**case, "error": f"{type(e).__name__}: {e}"[:300]})
+            return
+        if canon(registry) != canon(build_nodes(old_spec)):
+            corr.disagree("harness: the old file in this layout loads to a different registry", case)
+            return
+        if session.get("warm"):
+            await asyncio.wait_for(persistence.save(), TIMEOUT)
+            with open(live, "rb") as f:
+                old_bytes = f.read()
+        registry.clear()
+        registry.update(new_nodes)
+        corr.count("session:" + session["layout"] + (":warm" if session.get("warm") else ""))
     rec = Recorder(live)
     with rec.patched():
         try:
-            await asyncio.wait_for(Persistence(new_nodes, live).save(), TIMEOUT)
+            await asyncio.wait_for(persistence.save(), TIMEOUT)
         except BaseException as e:  # noqa: BLE001
             corr.violate("save raised under the instrumented opener", {**case, "error": f"{type(e).__name__}: {e}"[:300]})
             return
@@ -459,12 +550,24 @@ async def run_pair(corr: Corr, ctx, rng, label: str, old_spec, new_spec, must: l
     # the simulation must end where the real file system ended
     if states[-1][1].get("live") != new_bytes:
         corr.disagree("harness file-system simulation does not reproduce the real final file content", case)
+    # ... and agree with the real live file whenever no handle is open on it; a difference is a file
+    # operation the loggers did not see: what the file really held is a crash state of its own
+    before = {lab["op"]: f for lab, f in states if lab["kind"].startswith("before-")}
+    unlogged = []
+    for i, (handles, real) in enumerate(rec.pre):
+        if handles == 0 and i in before and before[i].get("live") != real:
+            unlogged.append(({"op": i, "kind": "unlogged-change"}, {"live": real}))
+    if unlogged:
+        corr.count("unlogged-change", len(unlogged))
+        states = states[:-1] + unlogged + states[-1:]
+        must = list(must) + list(range(len(states) - 1 - len(unlogged), len(states) - 1))
     leftovers = [r for r, b in states[-1][1].items() if r != "live" and b is not None]
     for path, role in rec.roles.items():
         if role != "live" and os.path.exists(path):
             os.unlink(path)
-    if leftovers:
-        corr.violate("save leaves files other than the persistence file behind", {**case, "leftovers": leftovers})
+    if leftovers:       # not something the property forbids: recorded, and the crash states below decide
+        corr.count("leftover-files", len(leftovers))
+        case["leftovers"] = leftovers
 
     # correspondence with the model
     in_place = ops == ["openTrunc:live", f"write:live:{hexb(new_bytes)}", "close:live"]
@@ -553,10 +656,23 @@ def run_c15(ctx) -> Corr:
     for j in range(4 if ctx.tier == "quick" else 12):
         pairs.append((f"random{j}", random_registry(rng), random_registry(rng), []))
     model_lines: list = []
+    # the save a running gateway makes: by the Persistence object that loaded the old file, whoever wrote it
+    sessions: list[tuple[str, list, list, dict]] = []
+    for layout in ("own", "legacy", "legacy-compact", "mixed", "compact", "ascii-escaped"):
+        for warm in (False, True):
+            if warm and ctx.tier == "quick" and layout not in ("own", "legacy"):
+                continue
+            old = NONASCII + ONE if layout == "ascii-escaped" else SEVERAL
+            sessions.append((f"session:{layout}{':warm' if warm else ''}", old, SEVERAL + NONASCII, {"layout": layout, "warm": warm}))
+    for j in range(2 if ctx.tier == "quick" else 10):
+        layout = rng.choice(["own", "legacy", "legacy-compact", "mixed", "compact"])
+        sessions.append((f"session:random{j}:{layout}", random_registry(rng), random_registry(rng), {"layout": layout, "warm": rng.random() < 0.3}))
 
     async def main():
         for label, old, new, must in pairs:
             await run_pair(corr, ctx, rng, label, old, new, must, model_lines)
+        for label, old, new, sess in sessions:
+            await run_pair(corr, ctx, rng, label, old, new, [], model_lines, session=sess)
 
     asyncio.run(main())
 
